@@ -129,6 +129,15 @@ def scenario_for(seed, index, tier):
           'sched': {'granularity': 'io' if index < len(en) or
                     rng.random() < 0.6 else 'line', 'max_steps': 300000},
           'rand_seed': rng.randrange(2**32)}
+    if index >= len(en) and rng.random() < 0.12 and \
+            not any(h['do'] == 'reconnect' for h in chain) and \
+            state in ('login', 'play'):
+        # while the fault is being handled, another thread asks the same
+        # object to connect again (handlers may be slow): once accepted,
+        # that connection must come up, whatever the dying thread is doing
+        sc['racer'] = {'handler_sleep_us': rng.choice([0, 0, 2000, 100000]),
+                       'retry_us': rng.choice([20, 100, 1000, 20000])}
+        sc['sched']['granularity'] = 'line'
     build_server(sc)
     return sc
 
@@ -190,6 +199,15 @@ def build_server(sc):
 
 
 def policy(rng, scenario):
+    if scenario.get('racer'):
+        # two threads inside connect() / the teardown: schedule adversarially
+        if rng.random() < 0.5:
+            d = rng.choice([2, 3, 4])
+            return Policy(p_event=rng.choice([0, 0.1]), pct_depth=d,
+                          pct_len=rng.choice([100, 400, 1500]),
+                          name='c14-racer-pct%d' % d)
+        return Policy(p_sched=rng.choice([0.05, 0.2, 0.5]),
+                      p_event=rng.choice([0, 0.1, 0.5]), name='c14-racer')
     return Policy(p_sched=rng.choice([0, 0.02]),
                   p_event=rng.choice([0, 0.1, 0.5]), p_seg=0.3, p_short=0.3,
                   name='c14')
@@ -288,6 +306,9 @@ def execute(scenario, tape):
             def fn(e, info):
                 st['calls'].append((h['id'], label(e),
                                     info[1] is e))
+                if scenario.get('racer') and \
+                        scenario['racer']['handler_sleep_us']:
+                    w.sleep(scenario['racer']['handler_sleep_us'])
                 do = h['do']
                 if do == 'reconnect':
                     try:
@@ -363,10 +384,23 @@ def execute(scenario, tape):
             st['exc_info_attr'] = getattr(conn, 'exc_info', None)
             st['conns_before_again'] = len(w.net.conns)
             st['exits_before_again'] = st['exits']
-            if not st.get('reconnected'):
+            if not st.get('reconnected') and not scenario.get('racer'):
                 st['again'] = w.api('connect', conn.connect)
                 st['quiet2'] = w.wait_until(quiet, 60000000)
         w.sim.spawn(user, 'user0')
+
+        def racer():
+            w.wait_until(lambda: st['fired'] or st.get('first_session_over'),
+                         60000000)
+            for _ in range(400):
+                r = w.api('connect', conn.connect)
+                if r.ok or type(r.exc).__name__ != 'InvalidState':
+                    st['racer'] = r
+                    st['racer_conns'] = len(w.net.conns)
+                    return
+                w.sleep(scenario['racer']['retry_us'])
+        if scenario.get('racer'):
+            w.sim.spawn(racer, 'user1')
 
     w.run(build)
     res = common.result_from_world(w)
@@ -476,7 +510,19 @@ def check(scenario, w, st, res, ids):
         V.append(('C14/reconnect-mismatch', {'got': st.get('reconnected'),
                                              'want': reconnected}))
         return
-    if not reconnected:
+    if scenario.get('racer'):
+        r = st.get('racer')
+        ob(2)
+        if r is not None and not r.ok:
+            V.append(('C14/concurrent-connect-raised',
+                      repr(r.exc)[:120]))
+        elif r is not None:
+            res.probes['connect-from-another-thread-during-handling'] = 1
+            idx = st['racer_conns'] - 1
+            if idx < 1 or idx >= len(apps) or not apps[idx].reached_play:
+                V.append(('C14/concurrent-connect-unusable',
+                          {'conn': idx, 'conns': len(apps)}))
+    elif not reconnected:
         ob(2)
         if not apps or not apps[0].fin_seen:
             V.append(('C14/connection-left-open', None))
